@@ -7,7 +7,10 @@ EXTENDS FsConfine
 CONSTANTS MaxSeg, MaxSegImage
 
 NoDev == {}
-SeqsUpTo(n) == UNION {[1..m -> Seg] : m \in 0..n}
+SeqsUpTo(n) == UNION {[1..m -> Seg \ {"lnk"}] : m \in 0..n}
+\* names that go through the symbolic link inside resource directory 1 (and back up)
+LinkSeg == {"lnk", "dd", "d", "e", "evil", "H", "zz", "sub", "dec"}
+LinkNames == {[abs |-> FALSE, segs |-> s, look |-> "ascii"] : s \in UNION {[1..m -> LinkSeg] : m \in 0..MaxSeg}}
 NamesUpTo(n, A) == {[abs |-> a, segs |-> s, look |-> "ascii"] : a \in A, s \in SeqsUpTo(n)}
 \* names spelled with characters that only LOOK like separators and dots (over the segments where that matters)
 LookKinds == {"fw", "fwl", "fwa", "bs", "div", "big", "lig", "over"}
@@ -26,6 +29,10 @@ LookImageCasesQuick == {IC({}, 1)}
 ExtKinds == {"raw", "neg", "csill", "filterill", "illclean", "lead1", "mid1", "leadW"}
 ExtImageCases == {[init |-> {}, draws |-> d, ext |-> e, src |-> s] : d \in 1..2, e \in ExtKinds, s \in {"xobj", "inline"}}
 NoImageCases == {}
+\* inline images that get the SAME name: one per page / one on the page and one in a form it invokes, into an empty
+\* directory and into one where inline0.<ext> (and inline0.0.<ext>) exist already
+InlineImageCases == {[init |-> i, draws |-> d, ext |-> "raw", src |-> s] :
+                       i \in {{}, {-1}, {-1, 0}}, d \in 1..2, s \in {"inlinepages", "inlineform"}}
 \* LONG runs of occupied candidates: name.ext and name.0.ext .. name.k.ext all exist already
 Run(k) == {-1} \cup 0..k
 RunImageCases == {IC(Run(k), d) : k \in {0, 1, 9, 99, 100, 150}, d \in 1..2}
